@@ -1,3 +1,54 @@
 package main
 
-func runApalache(scratch string) string { return "skipped" }
+import (
+	"fmt"
+	"os"
+	"os/exec"
+	"path/filepath"
+	"strings"
+	"time"
+
+	"verifharness/vlib"
+)
+
+// runApalache asks Apalache to discharge Apq's inductive invariant
+// (spec/ApqInd.tla): Init => IndInv and IndInv /\ Next => IndInv'. Optional
+// strengthening: any failure to run is only recorded, never a verdict.
+func runApalache(scratch string) string {
+	bin, err := exec.LookPath("apalache-mc")
+	if err != nil {
+		return "skipped: apalache-mc not installed"
+	}
+	if err := os.MkdirAll(scratch, 0o755); err != nil {
+		return "skipped: " + err.Error()
+	}
+	for _, f := range []string{"Apq.tla", "ApqInd.tla"} {
+		b, err := os.ReadFile(filepath.Join(vlib.SpecDir(), f))
+		if err != nil {
+			return "skipped: " + err.Error()
+		}
+		if err := os.WriteFile(filepath.Join(scratch, f), b, 0o644); err != nil {
+			return "skipped: " + err.Error()
+		}
+	}
+	t0 := time.Now()
+	for _, step := range [][]string{
+		{"--init=Init", "--length=0"},
+		{"--init=IndInit", "--length=1"},
+	} {
+		args := append([]string{"check", "--out-dir=" + filepath.Join(scratch, "out"), "--cinit=ConstInit", "--inv=IndInv"}, step...)
+		args = append(args, "ApqInd.tla")
+		out, err := vlib.RunCmd(scratch, nil, 5*time.Minute, bin, args...)
+		switch {
+		case strings.Contains(out, "EXITCODE: OK"):
+		case strings.Contains(out, "The outcome is: Error"):
+			// a design-level counterexample: the specification's own invariant is not inductive
+			vlib.Infra("Apalache: IndInv of Apq is not inductive (%v):\n%s", step, tailStr(out, 3000))
+		default:
+			fmt.Fprintf(os.Stderr, "[c15] apalache %v did not finish: %v\n", step, err)
+			return fmt.Sprintf("inconclusive (%v): %v", step, err)
+		}
+	}
+	fmt.Fprintf(os.Stderr, "[c15] Apalache: Init => IndInv and IndInv /\\ Next => IndInv' discharged, %.1fs\n", time.Since(t0).Seconds())
+	return fmt.Sprintf("discharged: Init => IndInv (length 0), IndInv /\\ Next => IndInv' (length 1) in %.1fs", time.Since(t0).Seconds())
+}
